@@ -84,7 +84,8 @@ CHECKS = {
         text='Monotone flag, effect-free AlreadyClosed path, drain-all-queues-with-waking-closure on the NewlyClosed '
              'path, acceptance of new values only under flag == false with the caller\'s own value handed back, '
              'flag-independent delivery paths, and counted close for every Clone handle (fetch_sub(1) == 1 on the '
-             'counter its Clone increments). Clone panics only beyond the overflow limit; the variant predicates of CloseStatus / TrySendError / '
+             'counter its Clone increments; at most one side may leave the close to the other; every construction site of a '
+             'counted handle increments). Clone panics only beyond the overflow limit; the variant predicates of CloseStatus / TrySendError / '
              'TryReceiveError and into_inner say what the variant is. Reported D3 (fixed).',
         note='Relative to atomics doing what fetch_add/fetch_sub say.', ref='5-C11'),
     'C08': dict(
@@ -94,7 +95,8 @@ CHECKS = {
              'that owns a payload by value, on every MIR path of every function of the channel modules, drops a '
              'provably empty slot or is one of four listed sinks; taken values flow only into buffer.push or the '
              'return value; clear() only from the last receiver; no raw read/write/forget on payloads; cancel '
-             'unlinks before taking the value back.',
+             'unlinks before taking the value back; every counted handle is counted where it is made (handles built <= '
+             'counter increments on the path).',
         note='That a parked value is eventually received is C10; ring-buffer accounting is C19.', ref='5-C08'),
     'C09': dict(
         technique='path-sensitive guard / must-follow analysis over MIR (capacity guard, refill, queue ends)',
@@ -137,14 +139,15 @@ CHECKS = {
         technique='path-sensitive guard / orientation analysis over MIR, zero-count arithmetic scan, typestate',
         text='Expired/Ready only under ge(clock.now(), own expiry) in that orientation; check_expirations marks, '
              'wakes and removes due minima and stops at the first non-due one; next_expiration = peek_min expiry; '
-             'entry comparisons are self.expiry vs other.expiry; saturating deadline arithmetic.',
+             'entry comparisons are self.expiry vs other.expiry; saturating deadline arithmetic; the deadline of an entry '
+             'is written only while the entry is outside the heap (key stability).',
         note='That peek_min is the true minimum (heap order) is assumed (C20).', ref='5-C15'),
     'C17': dict(
         technique='path-sensitive return-correlation analysis over MIR (return shape vs final field value)',
         text='On every MIR path of all 14 poll/poll_next bodies: Ready => handle None, Pending => handle Some; every '
              'is_terminated is is_none() of that same field (or the stream flag); the handle is checked before any '
              'call into the primitive and the None case panics; cancel() clears the handle; streams latch '
-             'end-of-stream exactly and build their inner future with receive(); every future is constructed with a live handle and every stream '
+             'end-of-stream exactly - and only on the channel\'s own closed verdict - and build their inner future with receive(); every future is constructed with a live handle and every stream '
              'live (slot empty, not terminated).',
         note='Calls into the primitive through dyn are opaque here (their results are only correlated, not '
              'interpreted).', ref='5-C17'),
